@@ -745,6 +745,7 @@ def sv_sqrt(x):
     r = SV(y)
     c.fn_cache[key] = (e, r)
     c.fn_apps.setdefault("sqrt", []).append((e, y))
+    c.clearer.sqrt_map[y.get_id()] = (y, e)
     return r
 
 
